@@ -10,13 +10,17 @@
 package main
 
 import (
+	"encoding/hex"
 	"fmt"
+	"os"
 	"sync"
 	"sync/atomic"
 	"testing"
 	"testing/synctest"
 	"time"
 
+	"github.com/postalsys/muti-metroo/internal/agent"
+	"github.com/postalsys/muti-metroo/internal/config"
 	"github.com/postalsys/muti-metroo/internal/flood"
 	"github.com/postalsys/muti-metroo/internal/identity"
 	"github.com/postalsys/muti-metroo/internal/protocol"
@@ -43,9 +47,10 @@ type op struct {
 type caseSpec struct {
 	// concurrent-delivery stress phase (not a history): the same signed command handed in by
 	// several neighbours at once, many times; replayed by scenario name
-	Scenario   string `json:"scenario,omitempty"`
-	Rounds     int    `json:"rounds,omitempty"`
-	Neighbours int    `json:"neighbours,omitempty"`
+	Scenario   string   `json:"scenario,omitempty"`
+	Rounds     int      `json:"rounds,omitempty"`
+	Neighbours int      `json:"neighbours,omitempty"`
+	Frames     []aframe `json:"frames,omitempty"` // scenario "agent-history"
 
 	Ops []op   `json:"ops"`
 	Why string `json:"why,omitempty"`
@@ -273,6 +278,81 @@ func stress(keys *scx.Keys, rounds, neighbours int) (twice, never, worst int) {
 	return
 }
 
+// ---------------------------------------------------------------------------
+// Agent level, with the agent's REAL sleep callbacks: a started agent.Agent
+// (Agent.Start wires enterSleep / exitSleep / doPoll into its sleep manager)
+// receives frames through its dispatcher. A command may be delivered as a
+// SLEEP_COMMAND / WAKE_COMMAND frame or inside QUEUED_STATE, from different
+// peers, and replayed after the agent's state has changed in between.
+// Monitor (property text only): a frame that changes the sleep state carries
+// a command that has not changed it before.
+
+type aframe struct {
+	Via       string       `json:"via"` // frame | queued
+	Kind      string       `json:"kind"`
+	From      int          `json:"from"`
+	AdvanceMs int64        `json:"advance_ms"`
+	Cmd       *scx.CmdSpec `json:"cmd"`
+}
+
+type aobs struct {
+	Before, After int
+}
+
+func agentHistory(t *testing.T, keys *scx.Keys, dataDir string, frames []aframe) (out []aobs, panicked string) {
+	synctest.Test(t, func(t *testing.T) {
+		panicked = vh.Recover(func() {
+			cfg := config.Default()
+			id0 := scx.ID(0)
+			cfg.Agent.ID = hex.EncodeToString(id0[:])
+			cfg.Agent.DataDir = dataDir
+			cfg.Agent.LogLevel = "error"
+			cfg.UDP.Enabled, cfg.ICMP.Enabled, cfg.SOCKS5.Enabled, cfg.HTTP.Enabled = false, false, false, false
+			cfg.Listeners, cfg.Peers = nil, nil
+			cfg.Sleep.Enabled = true
+			cfg.Sleep.PersistState = false
+			cfg.Sleep.PollInterval = 12 * time.Hour
+			cfg.Sleep.PollIntervalJitter = 0
+			cfg.Management.SigningPublicKey = hex.EncodeToString(keys.Pub)
+			a, err := agent.New(cfg)
+			if err != nil {
+				panic(err)
+			}
+			rec := &recorder{peers: []identity.AgentID{scx.ID(1), scx.ID(2), scx.ID(3)}}
+			a.VerifFlooder().VerifSetSender(rec)
+			if err := a.Start(); err != nil {
+				panic(err)
+			}
+			defer a.Stop()
+			for i := range frames {
+				fr := &frames[i]
+				if fr.AdvanceMs > 0 {
+					time.Sleep(time.Duration(fr.AdvanceMs) * time.Millisecond)
+				}
+				synctest.Wait()
+				now := time.Now().Unix()
+				var f *protocol.Frame
+				switch {
+				case fr.Via == "frame" && fr.Kind == "sleep":
+					f = &protocol.Frame{Type: protocol.FrameSleepCommand, StreamID: protocol.ControlStreamID, Payload: keys.Sleep(fr.Cmd, now).Encode()}
+				case fr.Via == "frame":
+					f = &protocol.Frame{Type: protocol.FrameWakeCommand, StreamID: protocol.ControlStreamID, Payload: keys.Wake(fr.Cmd, now).Encode()}
+				case fr.Kind == "sleep":
+					f = &protocol.Frame{Type: protocol.FrameQueuedState, StreamID: protocol.ControlStreamID, Payload: (&protocol.QueuedState{SleepCmd: keys.Sleep(fr.Cmd, now)}).Encode()}
+				default:
+					f = &protocol.Frame{Type: protocol.FrameQueuedState, StreamID: protocol.ControlStreamID, Payload: (&protocol.QueuedState{WakeCmd: keys.Wake(fr.Cmd, now)}).Encode()}
+				}
+				before := int(a.GetSleepState())
+				a.VerifProcessFrame(scx.ID(fr.From), f)
+				synctest.Wait()
+				out = append(out, aobs{Before: before, After: int(a.GetSleepState())})
+				rec.take()
+			}
+		})
+	})
+	return
+}
+
 func coqCache(es []entryObs) string {
 	it := make([]string, len(es))
 	for i, e := range es {
@@ -415,18 +495,97 @@ func TestVerif(t *testing.T) {
 		}
 	}
 
+	agentDir, err := os.MkdirTemp("", "c29-agent-")
+	if err != nil {
+		t.Fatal(err)
+	}
+	defer os.RemoveAll(agentDir)
+	runAgent := func(why string, frames []aframe) {
+		cs := &caseSpec{Scenario: "agent-history", Why: why, Frames: frames}
+		out, p := agentHistory(t, keys, agentDir, frames)
+		if p != "" {
+			c.Fail("panic", p, cs)
+			return
+		}
+		key := "agent"
+		acted := map[string]int{}
+		for i, fr := range frames {
+			key += fmt.Sprintf("|%s:%s:%d:%d:%d:%d", fr.Via, fr.Kind, fr.From, fr.Cmd.ID, fr.Cmd.Ts, fr.AdvanceMs)
+			c.Count("agent-frame:" + fr.Via + "-" + fr.Kind)
+			if i >= len(out) {
+				break
+			}
+			if out[i].Before == out[i].After {
+				continue
+			}
+			k := fmt.Sprintf("%s/%d/%d/%d", fr.Kind, fr.Cmd.Origin, fr.Cmd.ID, fr.Cmd.Ts)
+			if j, was := acted[k]; was {
+				c.Fail("replayed-command-acted-on-again", fmt.Sprintf("frame %d (%s, %s command %s) changed the sleep state %d -> %d although the same command already changed it at frame %d",
+					i, fr.Via, fr.Kind, k, out[i].Before, out[i].After, j), cs)
+			} else {
+				acted[k] = i
+			}
+			c.Count("agent-acted")
+		}
+		c.Case(key, true, cs)
+		coq = append(coq, "mkfcase []")
+	}
+
 	if c.Replay != "" {
 		var cs caseSpec
 		if err := c.ReadReplay(&cs); err != nil {
 			t.Fatal(err)
 		}
-		if cs.Scenario != "" {
+		if cs.Scenario == "agent-history" {
+			runAgent(cs.Why, cs.Frames)
+		} else if cs.Scenario != "" {
 			runStress(cs.Rounds, cs.Neighbours)
 		} else {
 			do(&cs)
 		}
 	} else {
 		runStress(c.N(10000, 60000), 8)
+		// agent level with the real sleep callbacks
+		mk := func(kind string, id uint64, ts uint64) *scx.CmdSpec {
+			return &scx.CmdSpec{Kind: kind, Origin: 10, ID: id, Sig: "valid", TsAbs: u64p(ts)}
+		}
+		base0 := uint64(946684800)
+		runAgent("witness", []aframe{
+			{Via: "frame", Kind: "sleep", From: 1, Cmd: mk("sleep", 1, base0)},
+			{Via: "frame", Kind: "wake", From: 2, AdvanceMs: 2000, Cmd: mk("wake", 2, base0)},
+			{Via: "frame", Kind: "sleep", From: 3, AdvanceMs: 2000, Cmd: mk("sleep", 1, base0)}, // replay of the first sleep
+			{Via: "frame", Kind: "sleep", From: 1, AdvanceMs: 1000, Cmd: mk("sleep", 3, base0)},
+			{Via: "queued", Kind: "wake", From: 2, AdvanceMs: 1000, Cmd: mk("wake", 2, base0)}, // the old wake, now inside QUEUED_STATE
+			{Via: "queued", Kind: "wake", From: 2, AdvanceMs: 1000, Cmd: mk("wake", 4, base0)},
+			{Via: "queued", Kind: "sleep", From: 1, AdvanceMs: 1000, Cmd: mk("sleep", 3, base0)}, // replay inside QUEUED_STATE
+			{Via: "frame", Kind: "sleep", From: 1, AdvanceMs: 1000, Cmd: mk("sleep", 1, base0)}})
+		na := c.N(40, 1500)
+		for i := 0; i < na; i++ {
+			r := c.Rand.Fork()
+			var fs []aframe
+			var pool []*scx.CmdSpec
+			n := 4 + r.Intn(6)
+			asleep := false
+			for j := 0; j < n; j++ {
+				via := []string{"frame", "queued"}[r.Intn(2)]
+				adv := int64(r.Pick(0, 1000, 2000, 30000))
+				if len(pool) > 0 && r.Chance(1, 2) {
+					p := *pool[r.Intn(len(pool))]
+					fs = append(fs, aframe{Via: via, Kind: p.Kind, From: 1 + r.Intn(3), AdvanceMs: adv, Cmd: &p})
+					continue
+				}
+				// a fresh genuine command that changes the state
+				kind := "sleep"
+				if asleep {
+					kind = "wake"
+				}
+				asleep = !asleep
+				cmd := mk(kind, uint64(100+j), base0+uint64(r.Pick(0, 60, 290)))
+				pool = append(pool, cmd)
+				fs = append(fs, aframe{Via: via, Kind: kind, From: 1 + r.Intn(3), AdvanceMs: adv, Cmd: cmd})
+			}
+			runAgent("random", fs)
+		}
 		base := uint64(946684800)
 		// witness 1: command stamped 5 min ahead, acted on, replayed after the entry expired but inside the window
 		w1 := &scx.CmdSpec{Kind: "sleep", Origin: 10, ID: 1, Sig: "valid", TsAbs: u64p(base + 300)}
